@@ -94,7 +94,7 @@ ASSUMPTIONS = [
 # HalfRank stage demonstrably lost a feasible value to NaN (its unwarp tables
 # are then built from NaNs: same root cause); such cases are counted in the
 # class `roundtrip_skipped_known_halfrank_nan`.
-KNOWN_HALFRANK_NAN = True
+KNOWN_HALFRANK_NAN = False
 
 SUF_A = 'below_median_lost_with_infeasible_present'
 SUF_B = 'dup_median_noop'
